@@ -1,5 +1,5 @@
 import Bpmn.Driver.Util
-import Bpmn.Props.C07Current
+import Bpmn.Model.CancelCurrent
 /-!
 Driver for C07: evaluates the cancellation property on what the IMPLEMENTATION did at one cancellation point
 and compares every leftover goroutine with what the protocol model predicts from the extracted tables.
@@ -21,7 +21,7 @@ Signatures (first word of a `spec`):
   request_after_cancel_with_live_ctx, late_request_after_cancel
 -/
 namespace Bpmn.Driver.C07
-open Bpmn.Driver Bpmn.Model.Cancel Bpmn.Props.C07
+open Bpmn.Driver Bpmn.Model.Cancel Bpmn.Model.CancelCurrent
 
 def kv (ws : List String) (key : String) : Option String :=
   (ws.find? (·.startsWith (key ++ "="))).map (fun w => (w.drop (key.length + 1)).toString)
